@@ -22,11 +22,15 @@ def extra_configs(tier, add):
     from jumanji.environments.logic.minesweeper.reward import DefaultRewardFn as RF
 
     def mk(r, c, m, rf=None):
-        return lambda: E.Minesweeper(G(num_rows=r, num_cols=c, num_mines=m), reward_function=(RF(*rf) if rf else None))
+        f = lambda: E.Minesweeper(G(num_rows=r, num_cols=c, num_mines=m), reward_function=(RF(*rf) if rf else None))
+        f.asked_rewards = rf            # what the configuration asked for (None = documented defaults 1, 0, 0)
+        return f
     add("r2c2m0", mk(2, 2, 0), 6)                       # minimum board, no mine at all
     add("r2c2m3", mk(2, 2, 3), 4)                       # maximum number of mines: one safe square
     add("r2c5m4-rew", mk(2, 5, 4, (1.5, -0.5, -2.25)), 9)   # non-square, three DISTINCT dyadic reward constants
     add("r7c3m6", mk(7, 3, 6), 18)                      # tall board
+    add("r3c3m2-rew0", mk(3, 3, 2, (1.0, -1.0, 0.0)), 8)     # an explicit ZERO invalid-action reward next to a non-zero mine reward
+    add("r3c3m2-rew00", mk(3, 3, 2, (0.0, 0.5, -1.0)), 8)    # an explicit ZERO empty-square reward
     add("r3c4m11", mk(3, 4, 11), 4)                     # one safe square, every neighbour count up to 8 reachable
     if tier != "quick":
         add("r5c5m24-rew", mk(5, 5, 24, (2.0, -1.0, -3.0)), 4)
@@ -44,9 +48,18 @@ def _code(x):
     return int(round(v))
 
 
-def enc_cfg(env):
+def asked_rewards(env):
+    """(empty, mine, invalid) reward constants the CONFIGURATION asked for, not what the reward function object stored: a
+    constructor that mangles an argument (e.g. `x or default` on 0.0) must disagree with the model, not re-parameterise it"""
+    a = getattr(env, "_verif_rewards", None)
+    if a is not None:
+        return a
     rf = env.reward_function
-    return list(_dims(env)) + [_code(rf.revealed_empty_square_reward), _code(rf.revelead_mine_reward), _code(rf.invalid_action_reward)]
+    return (rf.revealed_empty_square_reward, rf.revelead_mine_reward, rf.invalid_action_reward)
+
+
+def enc_cfg(env):
+    return list(_dims(env)) + [_code(x) for x in asked_rewards(env)]
 
 
 def enc_state(s):
@@ -132,6 +145,14 @@ def analyze(kit):
 
     for cfg in kit.configs():
         env = kit.env(cfg)
+        asked = getattr(cfg["make"], "asked_rewards", None)
+        env._verif_rewards = tuple(float(x) for x in asked) if asked else (1.0, 0.0, 0.0)    # documented defaults
+        rfo = env.reward_function
+        stored = (float(rfo.revealed_empty_square_reward), float(rfo.revelead_mine_reward), float(rfo.invalid_action_reward))
+        kit.res["C08"].evaluations += 1
+        if stored != env._verif_rewards:
+            kit.fail(["C08", "C05"], "Minesweeper reward function does not use the constants it was constructed with",
+                     dict(cfg=cfg["label"], op="reward-wiring"), dict(asked=env._verif_rewards, stored=stored))
         r, c, nm = _dims(env)
         n = r * c
         S = n - nm
